@@ -49,7 +49,9 @@ mod e2e {
 		/// ` tried=..` suffix of the next compared answer (a `sendr` / `retryr` op is in the next flush)
 		tried: String,
 		/// first-hop channels of the sender with a monitor update left InProgress by the harness; peers to reconnect
-		paused: Vec<usize>, to_reconnect: Vec<(usize, usize)> }
+		paused: Vec<usize>, to_reconnect: Vec<(usize, usize)>,
+		/// a call into the sender panicked (guarded): its locks may be poisoned, the network is given up
+		broken: bool }
 
 	fn hops(net: &Net, nodes: &[usize], chans: &[usize], amt: u64) -> (Path, u64) {
 		let mut h = vec![]; let mut fee = 0;
@@ -304,7 +306,14 @@ ans.push_str(&self.tried); self.tried.clear();
 			let onion = RecipientOnionFields::secret_only(secret, total);
 			let r = guarded(std::panic::AssertUnwindSafe(|| if retry { node.send_payment(hash, onion, id, route_params, Retry::Attempts(1)) } else { node.send_payment_with_route(route, hash, onion, id) }));
 			self.net.persisters[0].update_rets.lock().unwrap().clear();
-			let r = match r { Ok(r) => r, Err(e) => { self.rec.oracle_fail(format!("send panicked (async variant {}): {} :: {}", v, e.chars().take(300).collect::<String>(), self.log.join(" | "))); return None; } };
+			let r = match r { Ok(r) => r, Err(e) => {
+				// variant 5: the TestRouter asserts the RouteParameters of the retry (left = asked, right = expected: the amount NOT in flight)
+				let vals: Vec<&str> = e.match_indices("final_value_msat: ").map(|(i, m)| { let t = &e[i + m.len()..]; &t[..t.find(|c: char| !c.is_ascii_digit()).unwrap_or(t.len())] }).collect();
+				let what = if vals.len() == 2 { format!("the retry asked the router for final_value_msat {} but only {} is not in flight (amount re-sent although still in flight)", vals[0], vals[1]) } else { e.chars().take(300).collect::<String>() };
+				self.rec.oracle_fail(format!("send call panicked (async variant {}): {} :: {}", v, what, self.log.join(" | ")));
+				self.broken = true;
+				return None;
+			} };
 			self.net.pump(0);
 			match r {
 				Ok(()) => {
@@ -498,14 +507,15 @@ ans.push_str(&self.tried); self.tried.clear();
 			net.open(0, 1, 2_000_000, 500_000_000);
 			net.open(1, 2, 2_000_000, 500_000_000);
 			net.open(0, 2, 2_000_000, 500_000_000);
-			let mut ctx = Ctx { net, rec: &mut rec, rng: &mut rng, buf: vec![], group: 0, htlcs: BTreeMap::new(), live: BTreeSet::new(), ev_seen: vec![0; 3], pays: vec![], next_part: 1, log: vec![], sender_balance: 0, tried: String::new(), paused: vec![], to_reconnect: vec![] };
+			let mut ctx = Ctx { net, rec: &mut rec, rng: &mut rng, buf: vec![], group: 0, htlcs: BTreeMap::new(), live: BTreeSet::new(), ev_seen: vec![0; 3], pays: vec![], next_part: 1, log: vec![], sender_balance: 0, tried: String::new(), paused: vec![], to_reconnect: vec![], broken: false };
 			for k in 0..per_net {
 				let calm = ctx.rng.chance(1, 4);
 				ctx.run_payment(k as u64 + 1, calm);
+				if ctx.broken { break; }
 				if ctx.net.nodes[0].node.list_channels().len() < 3 { break; } // a channel closed: start over with a fresh network
 				if ctx.rng.chance(1, 3) { let n = ctx.rng.range(1, 9) as usize; ctx.ticks(n); }
 			}
-			ctx.ticks(10);
+			if !ctx.broken { ctx.ticks(10); }
 			std::mem::forget(ctx.net);
 		}
 		rec.notes.insert("rule".into(), "3 real nodes, 4 channels, sequential payments (1-hop, 2-hop, 2- and 3-part MPP over distinct first-hop channels), every peer message delivered singly in PRNG order with recipient claim/reject, sender ticks, abandon, duplicate sends and disconnect/reconnect interleaved; one case per sender event drain (the ops observed since the last drain) and per list_recent_payments dump; distinct = distinct op text with at least one observed op".into());
@@ -963,7 +973,7 @@ self.inflight.remove(&(*id, *part));
 					},
 				}
 			},
-			Err(_) => { self.emit(format!("chain sendr {} - - {}", id, !with_secret as u8), "panic", &[], "sendw:panic"); self.dead = true; },
+			Err(e) => { let t = self.trace.join(" | "); self.rec.oracle_fail(format!("the real code panicked in send_payment (id {}, {} parts, {} retries): {} :: {}", id, n, retries, e.chars().take(200).collect::<String>(), t)); self.emit(format!("chain sendr {} - - {}", id, !with_secret as u8), "panic", &[], "sendw:panic"); self.dead = true; },
 		}
 	}
 
@@ -984,7 +994,7 @@ self.inflight.remove(&(*id, *part));
 				// the loop of check_retry_payments only ends when no auto-retryable payment is short of its total
 				self.rec.case(&format!("unsettled {}", Self::csv(&autos)), "unsettled", "checkw:settled", true);
 			},
-			Err(_) => { self.emit("seq sweep -".to_string(), "panic", &[], "checkw:panic"); self.dead = true; },
+			Err(e) => { let t = self.trace.join(" | "); self.rec.oracle_fail(format!("the real code panicked in check_retry_payments: {} :: {}", e.chars().take(200).collect::<String>(), t)); self.emit("seq sweep -".to_string(), "panic", &[], "checkw:panic"); self.dead = true; },
 		}
 	}
 
